@@ -15,6 +15,10 @@ func runC12(c *Ctx) {
 	c.readCountRule("DLV-READCOUNT", func(*ssa.Function) bool { return true })
 	c.floor("DLV-READCOUNT", 3)
 
+	// ---- a module reader that is asked only once fills the buffer (after seed C12-p1)
+	c.fullReadRule("DLV-FULLREAD")
+	c.floor("DLV-FULLREAD", 1)
+
 	// ---- refill: no error reported while data was delivered
 	c.refillRules("DLV-DATAWITHERR", "")
 	refill := c.method("postscript", "scanner", "refill")
